@@ -90,6 +90,22 @@ func probeStrings() []string {
 			}
 		}
 	}
+	// look-alikes outside ASCII: characters whose code point has the same low byte (or low 7 bits) as a code's first
+	// character, fullwidth forms, a code followed by a combining mark, the code's bytes with the high bit set
+	for _, fam := range []string{"v3", "v2"} {
+		for _, d := range defsOf(fam) {
+			for _, c := range d.Codes {
+				r0 := rune(c.Code[0])
+				for _, off := range []rune{0x100, 0x200, 0x2100, 0x10000, 0x80} {
+					add(string(r0+off) + c.Code[1:])
+				}
+				add(string(rune(0xFF21+(r0-'A'))) + c.Code[1:])
+				add(c.Code + "\u0301")
+				add(string([]byte{c.Code[0] | 0x80}) + c.Code[1:])
+				add("\ufeff" + c.Code)
+			}
+		}
+	}
 	add("XLMH")
 	add("LMH")
 	add("XNALP")
@@ -147,7 +163,17 @@ func cmdTables(args []string) {
 			}
 			unknownPred := mm.Pred(0)
 			defd := []string{}
+			// enumeration integers: the defined ones, their neighbours, and values congruent to a defined one modulo 2^8,
+			// 2^16 and 2^32 (a table index computed in a narrower type would take them for the defined value)
+			cs := []int{}
 			for c := -2; c <= 9; c++ {
+				cs = append(cs, c)
+			}
+			for c := 0; c <= 6; c++ {
+				cs = append(cs, c+256, c-256, c+65536, c+(1<<32), c-(1<<32))
+			}
+			cs = append(cs, math.MaxInt64, math.MinInt64, math.MaxInt32, math.MinInt32)
+			for _, c := range cs {
 				sym := symOf(mm.Fam, mm.Idx, c)
 				rec.Add(fmt.Sprintf(`"k":"print","fam":%q,"m":%q,"c":%q,"str":%s`, mm.Fam, mm.Name, sym, jstr(asciiSafe(mm.Str(c)))), "String()")
 				if mm.Defined != nil {
